@@ -339,8 +339,31 @@ pub mod sync {
         use core::future::Future;
         use core::pin::Pin;
         use core::task::{Context, Poll};
-        use std::collections::VecDeque;
         use std::sync::Arc;
+        /// Loop-free FIFO of at most 4 queued items (a *bound of the model*: exceeding it panics with a
+        /// message naming the model). std's VecDeque drags RawVec growth / realloc / memcpy paths into
+        /// every send and recv (measured: most of the 880 k symex steps of a two-event harness).
+        pub struct VecDeque<T> { s: [Option<Box<T>>; 4], head: u8, n: u8 }
+        impl<T> VecDeque<T> {
+            pub fn new() -> Self { VecDeque { s: [None, None, None, None], head: 0, n: 0 } }
+            pub fn len(&self) -> usize { self.n as usize }
+            pub fn is_empty(&self) -> bool { self.n == 0 }
+            #[inline(always)]
+            fn slot(&mut self, i: u8) -> &mut Option<Box<T>> { if i == 0 { &mut self.s[0] } else if i == 1 { &mut self.s[1] } else if i == 2 { &mut self.s[2] } else { &mut self.s[3] } }
+            pub fn push_back(&mut self, v: T) {
+                if self.n >= 4 { panic!("tokio-model mpsc queue capacity (4) exceeded: bound of the verification model, not of the code under test"); }
+                let i = (self.head + self.n) & 3;
+                *self.slot(i) = Some(Box::new(v));
+                self.n += 1;
+            }
+            pub fn pop_front(&mut self) -> Option<T> {
+                if self.n == 0 { return None; }
+                let i = self.head;
+                self.head = (self.head + 1) & 3;
+                self.n -= 1;
+                self.slot(i).take().map(|b| *b)
+            }
+        }
         pub mod error {
             #[derive(Debug, Clone, PartialEq, Eq)] pub struct SendError<T>(pub T);
             #[derive(Debug, Clone, PartialEq, Eq)] pub enum TrySendError<T> { Full(T), Closed(T) }
@@ -393,6 +416,9 @@ pub mod sync {
             }
             pub fn same_channel(&self, o: &Self) -> bool { Arc::ptr_eq(&self.c, &o.c) }
             pub fn is_closed(&self) -> bool { self.c.rx_closed.get() }
+            /// harness-only wire tap: number of queued items / take the oldest queued item
+            pub fn model_len(&self) -> usize { self.c.q().len() }
+            pub fn model_pop(&self) -> Option<T> { self.c.q().pop_front() }
         }
         impl<T> Clone for Sender<T> { fn clone(&self) -> Self { self.c.txs.set(self.c.txs.get() + 1); Sender { c: self.c.clone() } } }
         impl<T> Clone for UnboundedSender<T> { fn clone(&self) -> Self { self.c.txs.set(self.c.txs.get() + 1); UnboundedSender { c: self.c.clone() } } }
